@@ -38,6 +38,125 @@ type Case struct {
 	SQL     string   `json:"sql,omitempty"`
 	Rows    []string `json:"rows,omitempty"`
 	Shards  []string `json:"shard_sqls,omitempty"`
+	Hist    []int    `json:"hist,omitempty"` // history case: rig.Prefixes executed first on the same router
+	HTarget int      `json:"h_target"`       // history case: index into hTargets
+}
+
+// SELECTs under test of the history family (S after a prefix H on the same router); none
+// of them uses a construct with a known finding
+var hTargets = []opt{
+	{"all_ordered", "SELECT id, k, v FROM t ORDER BY id"},
+	{"aggregates", "SELECT COUNT(*), MAX(k) FROM t"},
+	{"in_desc", "SELECT id FROM t WHERE id IN ({K1}, {K4}, {K6}) ORDER BY id DESC"},
+	{"group_by", "SELECT k, COUNT(*) FROM t GROUP BY k ORDER BY k"},
+	{"range_limit", "SELECT id, k FROM t WHERE id >= {K3} ORDER BY id LIMIT 1, 3"},
+	{"join_child", "SELECT t.id, w FROM t JOIN t2 ON t.id = t2.id ORDER BY w"},
+	{"not_between", "SELECT id FROM t WHERE id NOT BETWEEN {K2} AND {K6} ORDER BY id"},
+	{"distinct", "SELECT DISTINCT k FROM t ORDER BY k"},
+	{"union", "SELECT id FROM t UNION SELECT id FROM t WHERE k = 1 ORDER BY id"},
+}
+
+// runHistory executes the prefix statements and then the SELECT under test on ONE router
+// (a fresh one per case): (a) the C02 oracle against the single database in its state after
+// the prefix, (b) the statements sent to the backends must be those a router that has
+// executed nothing sends.
+func runHistory(w *worker, c Case) outcome {
+	l, err := parseLayout(c.Layout)
+	if err != nil {
+		ev.Fatalf("%v", err)
+	}
+	rg := w.rig(l).Fresh()
+	st, err := rg.NewStore(contentRows(c.Content))
+	if err != nil {
+		ev.Fatalf("%v", err)
+	}
+	var sqls []string
+	for _, h := range c.Hist {
+		sql := rig.Subst(rig.Prefixes[h].SQL, l)
+		sqls = append(sqls, sql)
+		rg.Apply(st, sql)
+		ref, sh, _ := rg.TRows(st)
+		if !rig.SameRows(ref, sh) {
+			return outcome{status: "prefix_diverged", sql: strings.Join(sqls, "; ")}
+		}
+	}
+	sql := rig.Subst(hTargets[c.HTarget].text, l)
+	all := strings.Join(append(sqls, sql), "; ")
+	refStmt, err := rg.Parse(sql)
+	if err != nil {
+		return outcome{status: "invalid", sql: all, errText: err.Error()}
+	}
+	k := l.Name() + "|" + sql
+	if w.fresh == nil {
+		w.fresh = map[string]string{}
+	}
+	fresh, ok := w.fresh[k]
+	if !ok {
+		f := rg.Fresh()
+		fp, ferr := f.Build(sql)
+		if ferr == nil {
+			fex := f.NewExec(st)
+			fex.Run(fp)
+			fresh = strings.Join(rig.CallsText(fex.Calls), "\n")
+		} else {
+			fresh = "error"
+		}
+		w.fresh[k] = fresh
+	}
+	p, buildErr := rg.Build(sql)
+	o := runOne(rg.NewExec(st), p, buildErr, &sqlref.Prepared{Stmt: refStmt}, st, sql)
+	o.sql = all
+	got := strings.Join(o.shards, "\n")
+	if buildErr != nil {
+		got = "error"
+	}
+	if o.status != "invalid" && got != fresh {
+		o.status = "violation"
+		o.v = verdict{kind: "plan_differs_after_history", detail: fmt.Sprintf("after the prefix the statement is sent as [%s], a fresh router sends [%s]", strings.ReplaceAll(got, "\n", " "), strings.ReplaceAll(fresh, "\n", " "))}
+	}
+	return o
+}
+
+// confirmHistory: five runs from scratch, then the shorter histories.
+func confirmHistory(r *ev.Run, w *worker, c Case) {
+	var first outcome
+	n := 0
+	for i := 0; i < 5; i++ {
+		if o := runHistory(w, c); o.status == "violation" {
+			if n == 0 {
+				first = o
+			}
+			n++
+		}
+	}
+	if n == 0 {
+		return
+	}
+	if len(c.Hist) == 2 {
+		for i := range c.Hist {
+			cc := c
+			cc.Hist = []int{c.Hist[1-i]}
+			if runHistory(w, cc).status == "violation" {
+				r.Add("violations_nonminimal", 1)
+				return
+			}
+		}
+	}
+	l, _ := parseLayout(c.Layout)
+	feat := map[string]string{"family": "history", "target": hTargets[c.HTarget].name, "layout_rule": l.Rule,
+		"prefix_1": rig.Prefixes[c.Hist[0]].Name, "prefix_2": "-", "mismatch": first.v.kind, "mechanism": "unclassified", "stable": "yes"}
+	if len(c.Hist) > 1 {
+		feat["prefix_2"] = rig.Prefixes[c.Hist[1]].Name
+	}
+	if n != 5 {
+		feat["stable"] = "no"
+	}
+	r.Add("violations_minimal", 1)
+	classMu.Lock()
+	classes[fmt.Sprintf("[history] %s target=%s h=%s,%s mismatch=%s", l.Rule, feat["target"], feat["prefix_1"], feat["prefix_2"], first.v.kind)]++
+	classMu.Unlock()
+	c.SQL, c.Rows, c.Shards = first.sql, describe(l, c.Content), first.shards
+	r.Violation(ev.Witness{Summary: fmt.Sprintf("[%s] %s on %v: %s", c.Layout, first.sql, c.Rows, first.v.detail), Features: feat, Case: c})
 }
 
 func parseLayout(s string) (rig.Layout, error) {
@@ -79,6 +198,9 @@ type outcome struct {
 // runFresh runs one case from scratch (own rig, own plan, own store): this is what a
 // replay does and what every violation is confirmed with.
 func runFresh(w *worker, c Case) outcome {
+	if len(c.Hist) > 0 {
+		return runHistory(w, c)
+	}
 	l, err := parseLayout(c.Layout)
 	if err != nil {
 		ev.Fatalf("%v", err)
@@ -382,7 +504,8 @@ func printClasses() {
 }
 
 type worker struct {
-	rigs map[string]*rig.Rig
+	rigs  map[string]*rig.Rig
+	fresh map[string]string // (layout, statement) -> statements a fresh router sends
 }
 
 func (w *worker) rig(l rig.Layout) *rig.Rig {
@@ -497,7 +620,11 @@ func main() {
 			fmt.Println("  error:", o.errText)
 		}
 		if o.status == "violation" {
-			confirm(r, w, rc, o)
+			if len(rc.Hist) > 0 {
+				confirmHistory(r, w, rc)
+			} else {
+				confirm(r, w, rc, o)
+			}
 		}
 		r.Set("evaluations", 1)
 		r.Finish()
@@ -667,6 +794,94 @@ func main() {
 		}
 		return r.TimeUp()
 	}
+	// ---- history family: SELECT S after 1-2 other statements on the SAME router ----
+	var hists [][]int
+	for a := range rig.Prefixes {
+		hists = append(hists, []int{a})
+	}
+	for a := range rig.Prefixes {
+		for b := range rig.Prefixes {
+			hists = append(hists, []int{a, b})
+		}
+	}
+	hContents := [][]int{{0, 1, 2, 3, 4, 5, 6, 7}, {0, 2, 5, 9}}
+	// quick: per rule type the layout with the most sub-tables (a damaged sub-table list
+	// needs at least three entries to show); thorough: every layout with >= 2 tables
+	var hLayouts []rig.Layout
+	best := map[string]int{}
+	for _, l := range layoutOrder {
+		if l.Tables() < 2 {
+			continue
+		}
+		if i, ok := best[l.Rule]; ok && r.Quick() {
+			if l.Tables() > hLayouts[i].Tables() {
+				hLayouts[i] = l
+			}
+			continue
+		}
+		best[l.Rule] = len(hLayouts)
+		hLayouts = append(hLayouts, l)
+	}
+	histNontrivial := map[string]bool{}
+	nHist := len(hists) * len(hLayouts)
+	hDone := enum.Parallel(nHist, stop, func(n int) {
+		h, l := hists[n/len(hLayouts)], hLayouts[n%len(hLayouts)]
+		w := pool.Get().(*worker)
+		defer pool.Put(w)
+		var nEval, nCmp, nDiv, nRej, nNT int64
+		for ti := range hTargets {
+			for hc, content := range hContents {
+				if r.Quick() && hc > 0 && len(h) > 1 {
+					continue // quick: two-statement prefixes meet the all-keys content only
+				}
+				c := Case{Layout: l.Name(), Hist: h, HTarget: ti, Content: content}
+				o := runHistory(w, c)
+				switch o.status {
+				case "prefix_diverged":
+					nDiv++
+					noteErr("history: prefix diverged: " + rig.Prefixes[h[len(h)-1]].Name)
+					continue
+				case "invalid":
+					continue
+				case "rejected_build", "rejected_exec":
+					nEval++
+					nRej++
+					noteErr("history: "+errClass(o.errText), l.Name(), o.sql, o.errText)
+					continue
+				}
+				nEval++
+				nCmp++
+				if o.merged >= 2 {
+					nNT++
+					classMu.Lock()
+					histNontrivial[fmt.Sprint(h, ti, hc)] = true
+					classMu.Unlock()
+				}
+				if o.status == "violation" {
+					confirmHistory(r, w, c)
+				} else if o.merged >= 2 && len(h) == 2 {
+					sampleMu.Lock()
+					if !sampled["history"] {
+						sampled["history"] = true
+						c.SQL, c.Rows, c.Shards = o.sql, describe(l, content), o.shards
+						r.Sample(c)
+					}
+					sampleMu.Unlock()
+				}
+			}
+		}
+		r.Add("evaluations", nEval)
+		r.Add("compared", nCmp)
+		r.Add("history_cases", nEval)
+		r.Add("history_prefix_diverged", nDiv)
+		r.Add("history_rejected", nRej)
+		r.Add("history_merged_two_or_more_shard_results", nNT)
+	})
+	if hDone < nHist {
+		r.Capped(fmt.Sprintf("history family: %d of %d (history, layout) items", hDone, nHist))
+	}
+	r.Set("history_family", fmt.Sprintf("%d prefixes (rig.Prefixes) -> %d histories of length 1-2 x %d SELECTs under test x %d contents on %d layouts, fresh router per case", len(rig.Prefixes), len(hists), len(hTargets), len(hContents), len(hLayouts)))
+
 	done := enum.Parallel(nItems, stop, func(n int) {
 		it, ent := itemAt(n)
 		w := pool.Get().(*worker)
@@ -746,7 +961,7 @@ func main() {
 		r.Capped(fmt.Sprintf("%d of %d (layout, query) items in fewest-deviations-first order", done, nItems))
 	}
 
-	r.Set("distinct_nontrivial", countNontrivial())
+	r.Set("distinct_nontrivial", countNontrivial()+len(histNontrivial))
 	r.Set("rejections_by_error_class", errClasses)
 	var plan []string
 	for _, e := range entries {
